@@ -88,6 +88,32 @@ class Tracer:
         lan.H = TracedOp(lan.H, self)
         orig_to_cache = lan._to_cache
         orig_full = lan._calc_result_full
+        # ---- accesses to the small matrix h = _h_krylov, in program order with the other events
+        self.hlog_on = True
+        self.hvals = {}
+        self.hproblems = []
+        self.h_root = None
+        tracer = self
+
+        class LoggedH(np.ndarray):
+            def __setitem__(s, key, val):
+                if s is tracer.h_root and tracer.hlog_on:
+                    tracer.h_set(key, val)
+                np.ndarray.__setitem__(s, key, val)
+
+            def __getitem__(s, key):
+                out = np.ndarray.__getitem__(s, key)
+                if s is tracer.h_root and tracer.hlog_on:
+                    out = tracer.h_get(key, out)
+                return out
+        self.h_root = lan._h_krylov.view(LoggedH)
+        lan._h_krylov = self.h_root
+        orig_conv = lan._converged
+
+        def conv(k):
+            self.ev.append(['cv', int(k)])
+            return orig_conv(k)
+        lan._converged = conv
 
         def to_cache(psi):
             orig_to_cache(psi)
@@ -127,16 +153,72 @@ class Tracer:
         self.ids[id(obj)] = k
         self.keep.append(obj)
 
+    @staticmethod
+    def _int2(key):
+        return isinstance(key, tuple) and len(key) == 2 and all(isinstance(x, (int, np.integer)) for x in key)
+
+    def h_set(self, key, val):
+        if not self._int2(key):
+            self.hproblems.append('h written with key %r' % (key,))
+            return
+        i, j = int(key[0]), int(key[1])
+        self.ev.append(['hw', i, j])
+        self.hvals[(i, j)] = float(np.real(val))
+
+    def h_get(self, key, out):
+        if self._int2(key):
+            i, j = int(key[0]), int(key[1])
+            self.ev.append(['hr', i, j])
+            if (i, j) not in self.hvals:
+                self.hproblems.append('h[%d,%d] read before it was written' % (i, j))
+            elif float(out) != self.hvals[(i, j)]:
+                self.hproblems.append('h[%d,%d] read: not the value written' % (i, j))
+            return out
+        if isinstance(key, tuple) and len(key) == 2 and all(isinstance(x, slice) for x in key) and \
+                all(x.start is None and x.step is None and isinstance(x.stop, (int, np.integer)) for x in key) and \
+                key[0].stop == key[1].stop:
+            n = int(key[0].stop)
+            self.ev.append(['hrb', n])
+            # the block that is diagonalised: symmetric tridiagonal, every band entry written before, nothing else
+            expect = np.zeros([n, n])
+            for i in range(n):
+                for j in range(max(0, i - 1), min(n, i + 2)):
+                    if (i, j) not in self.hvals:
+                        self.hproblems.append('block h[:%d,:%d] read before h[%d,%d] was written' % (n, n, i, j))
+                    else:
+                        expect[i, j] = self.hvals[(i, j)]
+            blk = np.asarray(out)
+            if blk.shape != (n, n) or not np.array_equal(blk, expect) or not np.array_equal(expect, expect.T):
+                self.hproblems.append('block h[:%d,:%d] is not the symmetric tridiagonal matrix of the written alpha/beta' % (n, n))
+            return out.view(np.ndarray)
+        self.hproblems.append('h read with key %r' % (key,))
+        return out
+
     def index(self, obj):
         return self.ids.get(id(obj), -1)
 
     def events(self, reortho):
         """canonical (tag, a, b, c) events and the (coef, vector) terms of the result."""
-        h = self.lan._h_krylov
+        self.hlog_on = False
+        h = np.asarray(self.lan._h_krylov)
         out = []
         terms = []
         problems = []
+        self.hout = []
+        self.cv_calls = []
+        hcode = {'hw': 7, 'hrb': 8, 'hr': 9}
         for e in self.ev:
+            n_before = len(out)
+            self._one_event(e, h, reortho, out, terms, problems)
+            self.hout += out[n_before:]
+            if e[0] in hcode:
+                self.hout.append([hcode[e[0]]] + (list(e[1:]) + [0, 0, 0])[:3])
+            elif e[0] == 'cv':
+                self.cv_calls.append(e[1])
+        return out, terms, problems
+
+    def _one_event(self, e, h, reortho, out, terms, problems):
+        if True:
             if e[0] == 'sc':
                 out.append([0, e[1], 0, 0] if e[1] >= 0 else [5, 0, 0, 0])
             elif e[0] == 'ca':
@@ -163,7 +245,6 @@ class Tracer:
                     else:
                         cls = 1 if (ai == 0 and ar == -h[v, v + 1].real) else 9
                     out.append([3, t, v, cls])
-        return out, terms, problems
 
 
 def build_operator(npc, sparse, case, M, leg):
@@ -214,6 +295,8 @@ def run_lanczos(case):
         else:
             psi, N = lan.run(complex(*evo['delta']) if evo['delta'][1] != 0 else evo['delta'][0], evo['normalize'])
             E = 0.
+        if tr is not None:
+            tr.hlog_on = False
         r = {'E': float(np.real(E)), 'psi': vec_out(psi), 'N': int(N), 'qtotal_ok': bool(np.all(psi.qtotal == psi0.qtotal)),
              'alpha': [float(lan._h_krylov[k, k].real) for k in range(N)],
              'beta': [float(lan._h_krylov[k, k + 1].real) for k in range(N)],
@@ -222,7 +305,10 @@ def run_lanczos(case):
             evs, terms, problems = tr.events(bool(options.get('reortho', False)))
             r['events'] = evs
             r['terms'] = terms
-            r['trace_problems'] = problems
+            r['trace_problems'] = problems + tr.hproblems
+            r['hevents'] = tr.hout
+            # cv[k]: LanczosGroundState._converged(k) (which reads h[k,k+1]) was called; LanczosEvolution._converged does not read h
+            r['cv'] = [bool(evo is None and k in tr.cv_calls) for k in range(int(N))]
         if evo is not None and case.get('rerun'):
             d2 = case['rerun']
             psi2, N2 = lan.run(complex(*d2) if d2[1] != 0 else d2[0], evo['normalize'])
